@@ -36,6 +36,7 @@ NONTRIVIAL = {
     # an iteration consumed step by step while the store changes under it
     "tx_judged_read_was_already_used_outside_a_transaction", "tx_judged_read_was_already_used_in_an_earlier_transaction",
     "invalidate_template_field_starts_with_a_subscript",
+    "tx_expired_buffered_write_over_a_matching_store_key", "tx_matching_store_key_written_then_removed_by_delete_many",
     "iter_matching_key_removed_between_steps", "iter_write_into_a_full_store_between_steps",
     "iter_matching_key_expires_between_steps", "iter_matching_key_rewritten_between_steps",
 }
@@ -470,6 +471,12 @@ def run(chk: Check) -> int:
         st["tx_multi"] = len(multi)
         stop = run_batch(multi)
 
+    # 3b'. a ttl assigned inside the transaction elapses before the judged read (model / spec judged; see globcase `crossing`)
+    if not stop:
+        cross = G.crossing_cases()
+        st["tx_crossing"] = len(cross)
+        stop = run_batch(cross)
+
     # 3c. iterations consumed step by step, the consumer working on the cache between two steps
     if not stop:
         iters = [(f"iter:{i}", c) for i, c in enumerate(G.iter_space())]
@@ -530,6 +537,14 @@ def run(chk: Check) -> int:
         "invalidate_accessor_rule": "half of the invalidate cases reach the text of an argument through an accessor of the template - {x[k]} with a dict "
                                     "argument, {x.a} with an object, {x[k].a} with a dict of objects - instead of a plain {x}; lists are not used (the "
                                     "formatter renders a list argument as text before it indexes it)",
+        "tx_crossing_cases": st.get("tx_crossing", 0),
+        "tx_crossing_rule": "a ttl assigned INSIDE the transaction elapses (txadv) before the judged scan / get_match: 288 enumerated cases (3 modes x 2 commands x "
+                            "key also in the store or not x 4 companion writes x 6 warm-ups) + 12% of the random transaction reads. Excluded by the C03/C04 proviso "
+                            "(NoDeadlineCrossed) from the comparison with direct execution and with the commit - there the store's old value legitimately shows "
+                            "through again -, but the selection inside the transaction is judged against the model (Glob.Tx.scan: the overlay's LIVE matches, then "
+                            "the store's) and the glob spec on the transaction's view: an expired buffered write does not hide the store's key",
+        "delete_many_rule": "transaction writes include delete_many (`delm`): a third of the deletes of the random cases, and placement SOD (store entry overwritten "
+                            "and then removed with delete_many) in the split cases (16^3 placements in the thorough tier)",
         "iteration_cases": st.get("iter_cases", 0),
         "iteration_rule": "scan / get_match consumed STEP BY STEP (`__anext__` by `__anext__`) on Memory, the facade and the signed facade, the consumer "
                           "issuing other commands between two steps: delete of a key (visited or not yet), write of a new or an existing key - into an "
